@@ -1,6 +1,26 @@
 //! cfh — correspondence harness: runs the real implementation on cases read from stdin (one per line) and
 //! prints one canonical result line per case.  See DESIGN.md §2.4 / Appendix B.
 mod sym;
+mod exp;
+mod dispatch_probe;
+#[cfg(cfh_stable)]
+#[path = "gen_glue_stable.rs"]
+mod gen_glue;
+#[cfg(cfh_debug)]
+#[path = "gen_glue_debug.rs"]
+mod gen_glue;
+#[cfg(cfh_nightly)]
+#[path = "gen_glue_nightly.rs"]
+mod gen_glue;
+
+/// Dispatch feature-mask override (the one hook, `--cfg cfavml_verif`).  0 = no override.
+pub fn set_mask(mask: u32) {
+    #[cfg(cfavml_verif_hook_present)]
+    cfavml::dispatch::verif_hook::set_mask(mask);
+    #[cfg(not(cfavml_verif_hook_present))]
+    { let _ = mask; }
+}
+
 
 use std::io::{self, BufRead, Write};
 
@@ -16,6 +36,9 @@ fn main() {
         if toks.is_empty() { continue; }
         let res = match mode {
             "sym" => sym::run_case(&toks),
+            "exp" => exp::run_exp(&toks),
+            "safe" => exp::run_safe_line(&toks),
+            "dispatch" => exp::run_dispatch_line(&toks),
             _ => format!("error unknown-mode {}", mode),
         };
         writeln!(out, "{}", res).unwrap();
